@@ -22,6 +22,7 @@ GENERATORS = [
     ('tables_nitf2', 'NitfTables2.lean', lambda r: {'descs': len(r['descs']), 'errors': r['errors'], 'mismatches': len(r['mismatches'])}),
     ('tables_tre', 'TreTables.lean', lambda r: {'tres': len(r['tres']), 'untranslated': r['untranslated'], 'defects': len(r['defects'])}),
     ('xsd2lean', 'XsdPairs.lean', lambda r: {k: r[k] for k in list(r)[:6] if not isinstance(r[k], (list, dict))}),
+    ('gen_bounds', 'Bounds.lean', lambda r: {'unsupported': r['unsupported'], 'descriptors': r['descriptors'], 'contained': r['contained_pairs'], 'narrower': r['narrower_pairs']}),
     ('xsd_versions', 'XsdVersions.lean', lambda r: {f: d['features'] for f, d in r['families'].items()}),
     ('gen_geo', 'Geo.lean', _unsup),
     ('gen_nitf_orient', 'NitfOrient.lean', lambda r: {'unsupported': r['unsupported'], 'rows': r['rows']}),
